@@ -29,6 +29,11 @@ type c29State struct {
 }
 
 func genC29(r *simrt.Rand, tier string) *simrt.Plan {
+	if m := simrt.Mode("C29", 2); m != nil && r.Bool(0.03) {
+		// node level: concurrent clients against a real Server (harness in the external
+		// test package); one such run costs as much as some fifty fragment-level ones
+		return m.Gen(r, tier)
+	}
 	kind := simrt.Pick(r, l2Set, l2Set, l2Set, l2Mutex)
 	g := newL2Gen(r, kind)
 	g.rows = g.rows[:2]
